@@ -21,7 +21,7 @@ func main() {
 	defer w.Close()
 	nbase := 3
 	if *tier == "thorough" {
-		nbase = 24
+		nbase = 96
 	}
 	id := 0
 	emit := func(m ev.M) { m["id"] = id; id++; w.Emit(m) }
